@@ -8,13 +8,11 @@ func init() {
 		Title: "What the gateway reports about its schema is the schema it enforces",
 		Kernels: []Kernel{
 			{Name: "type-entries", Pkg: ".", Files: files, Entry: "VerifIntrospectionAnswers", Mode: "seq", Native: true,
-				Reach: []string{"type entry checked"}, Functions: fns,
-				Known: []string{"C16-type-name-by-variable", "C16-shape-per-kind", "C16-interface-possible-types", "C16-input-field-defaults"}},
+				Reach: []string{"type entry checked", "shape checked", "abstract type", "input object"}, Functions: fns},
 			{Name: "sibling-selections", Pkg: ".", Files: files, Entry: "VerifIntrospectionSiblings", Mode: "seq", Native: true,
 				Reach: []string{"sibling selections checked"}, Functions: fns},
 			{Name: "round-trip", Pkg: ".", Files: files, Entry: "VerifIntrospectionRoundTrip", Mode: "seq", Native: true,
-				Reach: []string{}, Functions: fns,
-				Known: []string{"C16-second-gateway-cannot-introspect"}},
+				Reach: []string{"round trip"}, Functions: fns},
 		},
 		Assume: []string{
 			"one merged scenario schema (interface, union, enum with a deprecated value, input object with defaults, custom scalar, deprecated field, argument default, mutation root); the type asked for and literal-vs-variable are symbolic choices",
